@@ -1,5 +1,6 @@
-\* C16 view machine, thorough tier: the bounded schema space of MC_Introspect with Big = TRUE
-\* (4 related types, wraps up to depth 5). Measured: see notes/C16.md.
+\* C16 view machine, thorough tier. Constants: Big = TRUE (relation slice over 4 types, wrappings up
+\* to depth 5, full alphabets). Measured: 5126 schemas, 10252 distinct states, depth 2, ~2 min
+\* with -workers 1 (most of it enumerating the relation slice).
 CONSTANTS
     Big = TRUE
     Schemas <- MCSchemas
